@@ -157,8 +157,27 @@ func absState(gs *pokerface.GameState) uint64 {
 // observe runs every enabled oracle on one delivery and updates the track.
 func (r *run) observe(d *delivery) {
 	pre := d.pre
-	cl := classify(pre, d.st)
 	i := d.idx
+	if d.neighbour {
+		r.res.Steps++
+		r.res.Count("fault.neighbour-hand-started", 1)
+		if d.pan != "" {
+			r.res.Fault = "neighbour hand panicked: " + d.pan
+			r.dead = true
+			return
+		}
+		if string(d.preJSON) != string(d.postJSON) {
+			r.viol("C14", "another-hand-in-the-process-changed-this-hand", "starting another hand changed this hand: "+firstDiff(d.postJSON, d.preJSON), i)
+			r.viol("C07", "another-hand-in-the-process-changed-this-hand", "starting another hand changed this hand: "+firstDiff(d.postJSON, d.preJSON), i)
+		}
+		cl0 := opClass{legit: false, kind: "neighbour", seat: -1}
+		r.checkC07(d, i)
+		r.checkC14(d, i)
+		r.checkC01(d, i)
+		_ = cl0
+		return
+	}
+	cl := classify(pre, d.st)
 	r.res.Steps++
 	changed := string(d.preJSON) != string(d.postJSON)
 
